@@ -285,7 +285,7 @@ pub fn scripts(thorough: bool, rng: &mut Rng) -> Vec<Script> {
         for (ce, se) in combos { let s = Script { ce, se, rules: t.clone() }; if !v.contains(&s) { v.push(s); } }
     }
     // random double tampering
-    let n = if thorough { 150 } else { 15 };
+    let n = if thorough { 6000 } else { 15 };
     for _ in 0..n {
         let mut rules = rng.pick(&tamper).clone();
         for x in rng.pick(&tamper).clone() { if !rules.iter().any(|y| y.from_client == x.from_client && y.typ == x.typ) { rules.push(x); } }
@@ -363,6 +363,6 @@ pub fn run(args: &Args) {
         }
         if !done { run.count("script_skipped_timing"); }
     }
-    fp_cases(&mut run, &mut rng, if args.tier_thorough { 5000 } else { 600 });
+    fp_cases(&mut run, &mut rng, if args.tier_thorough { 50000 } else { 600 });
     run.finish();
 }
